@@ -19,6 +19,7 @@ package quic_test
 // transports are closed no goroutine of the bubble survives.
 
 import (
+	"os"
 	"context"
 	"errors"
 	"fmt"
@@ -70,7 +71,7 @@ func TestVerifC17Handshake(t *testing.T) {
 	ats := []int{0, 500, 2000, 4900, 5100, 7000, 9900, 10100, 12000, 14900, 15100, 20000, 26000}
 	reps := l.Pick(1, 20)
 	for rep := 0; rep < reps; rep++ {
-		for _, cause := range []string{"dial-cancel", "server-silent", "client-silent", "transport-close", "handshake-stall"} {
+		for _, cause := range []string{"dial-cancel", "server-silent", "client-silent", "transport-close", "handshake-stall", "server-transport-close"} {
 			for _, cl := range []string{"plain", "unil", "Chrome_115_IPv4", "Firefox_116A"} {
 				for _, at := range ats {
 					if rep > 0 {
@@ -337,6 +338,7 @@ func runC17Dial(l *evlog.Log, c *evlog.Case, cs *c17hsCase) {
 	}()
 	time.Sleep(time.Duration(cs.AtUs) * time.Microsecond)
 	trigger := w.Router.Now()
+	serverClosed := make(chan struct{})
 	switch cs.Cause {
 	case "dial-cancel":
 		cancel()
@@ -346,6 +348,21 @@ func runC17Dial(l *evlog.Log, c *evlog.Case, cs *c17hsCase) {
 		w.Router.SetBlackhole(wiretap.C2S, true)
 	case "transport-close":
 		go w.ClientTr.Close()
+	case "server-transport-close":
+		// the server's transport is closed while its side of the handshake is in flight: Close must return
+		go func() {
+			w.ServerTr.Close()
+			close(serverClosed)
+		}()
+		if ok, deadlock := quicworld.AwaitOrDeadlock(serverClosed, 5*time.Second); ok {
+			l.Count("hs_server_transport_closed_mid_handshake", 1)
+		} else if deadlock != "" {
+			viol("transport-close-deadlock", "the server's Transport.Close, called %s into a handshake, does not return: goroutines wait for a lock that is never released:\n%s", trigger-t0, deadlock)
+			// the bubble can never end: leave the process (every log line is flushed; the runner continues behind this case)
+			os.Exit(3)
+		} else {
+			viol("transport-close-hung", "the server's Transport.Close has not returned 5 s (virtual) after it was called %s into a handshake", trigger-t0)
+		}
 	}
 	// ---- Dial
 	limit := 2*c17hsHandshakeIdle + time.Second
@@ -386,6 +403,9 @@ func runC17Dial(l *evlog.Log, c *evlog.Case, cs *c17hsCase) {
 		if d.at-trigger > 100*time.Millisecond {
 			viol("dial-returned-late", "Dial returned %s after Transport.Close", d.at-trigger)
 		}
+	case cs.Cause == "server-transport-close":
+		// the client learns it through a CONNECTION_CLOSE / stateless reset, or not at all (time-out)
+		l.Count("hs_server_close_dial_"+class, 1)
 	default: // a silent peer: one of the two time-outs, no earlier than HandshakeIdleTimeout after the last packet received
 		if class != "idle-timeout" && class != "handshake-timeout" {
 			viol("wrong-cause|want=timeout", "Dial returned %s (%v) although the peer only went silent", class, d.err)
@@ -433,13 +453,15 @@ func runC17Dial(l *evlog.Log, c *evlog.Case, cs *c17hsCase) {
 			cc.CloseWithError(0, "")
 		case "transport-close":
 			want = "transport-closed"
+		case "server-transport-close":
+			want = "any" // a close sent by the server's connections, a stateless reset or the idle timeout
 		default:
 			want = "idle-timeout"
 		}
 		if want != "" {
 			select {
 			case <-cc.Context().Done():
-				if got := c17ErrClass(context.Cause(cc.Context())); got != want {
+				if got := c17ErrClass(context.Cause(cc.Context())); got != want && want != "any" {
 					viol("wrong-cause|want="+want, "established connection ended with %s (%v)", got, context.Cause(cc.Context()))
 				}
 			case <-time.After(c17hsIdle + 30*time.Second):
